@@ -17,7 +17,8 @@ def make_input(p, wd, name="plt_in", names=None, payload="coded", specials=True)
                      nfiles=p.get("nfiles", 2), layout=p.get("layout", "shuffled"), seed=p.get("seed", 0),
                      box=p.get("box", 8), box_sizes=tuple(p["box_sizes"]) if p.get("box_sizes") else None,
                      payload=payload, time=p.get("time", 0.1 + p.get("seed", 0) * 1e-3),
-                     ref_line_extra=p.get("ref_line_extra", 0))
+                     ref_line_extra=p.get("ref_line_extra", 0),
+                     levels=[[(tuple(lo), tuple(hi)) for lo, hi in lv] for lv in p["levels"]] if p.get("levels") else None)
     if specials:
         rng = random.Random(p.get("seed", 0) + 17)
         for val in (float("inf"), 5e-324, -0.0):
@@ -65,4 +66,129 @@ def run_colander_scenario(p, wd):
             f["call"] = what
     if tree_digest(path) != before:
         fails.append({"what": "colander modified its input plotfile", "call": "", "detail": ""})
+    return {"fails": fails[:20], "checks": checks}
+
+
+def run_whip_scenario(p, wd):
+    """C10: the saved uniform grid is the covering grid of the field (finest level <= limit wins, replicated), cast to
+    the dtype, axes (x,y,z), for every completion order of the per-file tasks."""
+    import sys
+    from replay import oracle
+    from harness.fakepool import patch_pools
+    import amr_kitchen.whip.cli as whip
+    fails = []
+    checks = 0
+    pf, path = make_input(p, wd)
+    rng = random.Random(p["seed"])
+    names = list(pf.names)
+    combos = []
+    for dtype in ("float64", "float32"):
+        for lim in [None] + list(range(pf.L + 1)):
+            combos.append((rng.choice(names), dtype, lim))
+    rng.shuffle(combos)
+    orders = p.get("orders", ["real", "shuffle", "reversed"])
+    for ci, (field, dtype, lim) in enumerate(combos[: p.get("ncombos", 3)]):
+        comp = names.index(field)
+        exp, lvl = oracle.covering_grid(path, comp, limit=lim, with_level=True)
+        exp = exp.astype(dtype)
+        for oi, order in enumerate(orders):
+            out = os.path.join(wd, f"ug_{ci}_{oi}")
+            argv = ["whip", "-v", field, "-o", out, "-y", "-d", dtype, path]
+            if lim is not None:
+                argv[1:1] = ["-l", str(lim)]
+            what = f"whip {' '.join(argv[1:-1])} <plt> (completion order: {order})"
+            restore = patch_pools(order, p["seed"] + oi) if order != "real" else (lambda: None)
+            old_argv = sys.argv
+            sys.argv = argv
+            checks += 1
+            try:
+                whip.main()
+            except SystemExit as e:
+                fails.append({"what": "whip exited instead of writing the grid", "call": what, "detail": str(e.code)})
+                continue
+            except Exception as e:      # noqa
+                fails.append({"what": "whip raised on a valid request", "call": what, "detail": f"{type(e).__name__}: {str(e)[:120]}"})
+                continue
+            finally:
+                sys.argv = old_argv
+                restore()
+            try:
+                got = np.load(out + ".npy")
+            except Exception as e:      # noqa
+                fails.append({"what": "whip output not found", "call": what, "detail": str(e)[:100]})
+                continue
+            if got.shape != exp.shape or got.dtype != exp.dtype:
+                fails.append({"what": "uniform grid has wrong shape/dtype (level limit or axes)", "call": what,
+                              "detail": f"{got.shape} {got.dtype} vs {exp.shape} {exp.dtype}"})
+                continue
+            same = (got == exp) | (np.isnan(got) & np.isnan(exp))
+            if not same.all():
+                bad = np.argwhere(~same)[0]
+                fails.append({"what": "uniform grid differs from the covering grid", "call": what,
+                              "detail": f"{int((~same).sum())} cells differ, first {tuple(int(x) for x in bad)}: {got[tuple(bad)]} vs {exp[tuple(bad)]} (level {lvl[tuple(bad)]})"})
+    return {"fails": fails[:20], "checks": checks}
+
+
+def expected_integral(pf, comp, limit, vf=None):
+    """sum over cells not covered by a finer selected level of value * dV (* volFrac): every point exactly once"""
+    total = 0.0
+    for lv in range(limit + 1):
+        dV = float(np.prod(pf.dx(lv)))
+        for b, (lo, hi) in enumerate(pf.levels[lv]):
+            vals = pf.data[lv][b][..., comp].astype(float)
+            if vf is not None:
+                vals = vals * pf.data[lv][b][..., vf]
+            keep = np.ones(vals.shape, dtype=bool)
+            if lv < limit:
+                for (flo, fhi) in pf.levels[lv + 1]:
+                    clo = [max(l // 2, a) for l, a in zip(flo, lo)]
+                    chi = [min(h // 2, c) for h, c in zip(fhi, hi)]
+                    if all(x <= y for x, y in zip(clo, chi)):
+                        sl = tuple(slice(x - a, y - a + 1) for x, y, a in zip(clo, chi, lo))
+                        keep[sl] = False
+            total += dV * float(np.sum(vals[keep]))
+    return total
+
+
+def run_pestle_scenario(p, wd):
+    """C09: volume_integral(pck, field, limit_level, use_volfrac) counts every point of the domain exactly once."""
+    from amr_kitchen import PlotfileCooker
+    from amr_kitchen.pestle.pestle import volume_integral
+    fails = []
+    checks = 0
+    nf = p.get("nf", 3)
+    names = ["density", "temp", "volFrac", "Y(H2)", "pressure"][:max(3, nf)]
+
+    def payload(lv, b, lo, hi, X, Y, Z, c):
+        r = np.random.default_rng(p["seed"] * 100003 + lv * 1009 + b * 31 + c)
+        if names[c] == "volFrac":
+            return r.uniform(0.0, 1.0, size=X.shape)
+        return 1.0 + r.uniform(0.0, 1.0, size=X.shape) + 0.1 * X
+    pf, path = make_input(p, wd, names=names, payload=payload, specials=False)
+    vf = names.index("volFrac")
+    rng = random.Random(p["seed"])
+    combos = []
+    for lim in [None] + list(range(pf.L + 1)):
+        for use_vf in (False, True):
+            combos.append((rng.choice([n for n in names if n != "volFrac"]), lim, use_vf))
+    rng.shuffle(combos)
+    pck = None
+    for field, lim, use_vf in combos[: p.get("ncombos", 4)]:
+        what = f"volume_integral(pck, {field!r}, limit_level={lim}, use_volfrac={use_vf})"
+        checks += 1
+        L = pf.L if lim is None else lim
+        exp = expected_integral(pf, names.index(field), L, vf if use_vf else None)
+        try:
+            if pck is None:
+                pck = PlotfileCooker(path, ghost=True)
+            got = volume_integral(pck, field, limit_level=lim, use_volfrac=use_vf)
+        except Exception as e:      # noqa
+            fails.append({"what": "volume_integral raised on a valid request", "call": what,
+                          "detail": f"{type(e).__name__}: {str(e)[:120]}", "limit": lim,
+                          "mixed": bool(p.get("box_sizes"))})
+            continue
+        if not np.isfinite(got) or abs(got - exp) > 1e-9 * max(abs(exp), 1e-300):
+            fails.append({"what": "volume integral differs from the exactly-once sum", "call": what,
+                          "detail": f"{got!r} vs {exp!r} (rel {abs(got - exp) / abs(exp):.3e})", "limit": lim,
+                          "mixed": bool(p.get("box_sizes"))})
     return {"fails": fails[:20], "checks": checks}
